@@ -236,11 +236,115 @@ pub fn run(args: &Args) -> serde_json::Value {
             }
         }
     }
+    // ---------------- long directed loops on a large, cold lattice ----------------
+    let long = long_loops(args.thorough, args.seed);
+    for f in long.failures.iter() {
+        fail("C06", f.clone(), json!({"scenario": "Heisenberg antiferromagnet, periodic square lattice, directed loops only", "L": long.l, "beta": long.beta,
+            "seed": long.seed}), &mut oracle_failures);
+    }
     let per = if args.thorough { 500 } else { 100 };
     let files = crate::write_shards(&args.out, "Steps", "Steps", &coq, per);
     json!({"files": files, "evaluations": coq.len(), "distinct_nontrivial": distinct.len(), "histories": 2 * n_hist,
         "calls": n_calls, "calls_by_kind": hist_calls, "n_after_histogram(bucket of 5)": hist_n, "ising_with_field": n_h,
         "ising_with_heatbath": n_hb, "generic_built_in_two_stages": n_staged, "max_cutoff_seen": max_cutoff_seen, "raw_words_replayed": n_words,
         "oracle_failures": oracle_failures, "samples": samples,
+        "long_loop_scenario": {"lattice": format!("{}x{} periodic Heisenberg", long.l, long.l), "beta": long.beta, "calls_checked": long.calls,
+            "max_operator_count": long.max_n, "world_line_checked_after_every_call": true},
         "rule": "random Ising samplers (2-5 spins, multi-edges, J of both signs, h = 0 / +-, heat bath on/off, initial cutoff 1..8) and generic samplers (exchange terms with loops, symmetric diagonal + constant terms with clusters, mixed arities), histories of interleaved timestep / single_diagonal_step / single_cluster_step with a beta per call; every call is one case replayed by the model on the raw RNG words; distinct = distinct (configuration before, words consumed)"})
+}
+
+
+/// Large, cold system with directed loops only: the operator string holds several thousand operators and single
+/// loops visit 10^4 - 10^5 vertices before they close (a loop that is cut short leaves an open world line).
+/// The naive world-line check runs after every diagonal_update and every loop_update.
+pub struct LongLoops {
+    pub l: usize,
+    pub beta: f64,
+    pub seed: u64,
+    pub calls: usize,
+    pub max_n: usize,
+    pub failures: Vec<String>,
+}
+
+pub fn long_loops(thorough: bool, seed: u64) -> LongLoops {
+    use qmc::sse::fast_ops::FastOps;
+    use rand::prelude::*;
+    type Q = Qmc<SmallRng, FastOps>;
+    let l = 16usize;
+    let beta = 32.0;
+    let (sweeps, loops_per_sweep) = if thorough { (120, 20) } else { (40, 20) };
+    let seed = 20260930u64.wrapping_add(seed);
+    let f = |i: usize, j: usize| (j % l) * l + (i % l);
+    let mut edges = vec![];
+    for j in 0..l {
+        for i in 0..l {
+            edges.push((f(i, j), f(i + 1, j)));
+            edges.push((f(i, j), f(i, j + 1)));
+        }
+    }
+    let neel: Vec<bool> = (0..l * l).map(|k| (k % l + k / l) % 2 == 0).collect();
+    let mut out = LongLoops { l, beta, seed, calls: 0, max_n: 0, failures: vec![] };
+    let r = catch_unwind(AssertUnwindSafe(|| {
+        let mut q = Q::new_with_state(l * l, SmallRng::seed_from_u64(seed), neel, true);
+        let mut mat = vec![0.0; 16];
+        mat[0b0101] = 0.5;
+        mat[0b1010] = 0.5;
+        mat[0b1001] = 0.5;
+        mat[0b0110] = 0.5;
+        for (a, b) in edges {
+            q.make_interaction(mat.clone(), vec![a, b]).unwrap();
+        }
+        let check = |q: &Q| -> Option<String> {
+            let m = q.get_manager_ref();
+            let state0 = q.state_ref().to_vec();
+            let mut rolling = state0.clone();
+            for p in 0..m.get_cutoff() {
+                if let Some(op) = m.get_pth(p) {
+                    for (relv, v) in op.get_vars().iter().cloned().enumerate() {
+                        if rolling[v] != op.get_inputs()[relv] {
+                            return Some(format!("operator at p={} (bond {}, vars {:?}) records input {} for variable {} but the propagated state has {}",
+                                p, op.get_bond(), op.get_vars(), op.get_inputs()[relv], v, rolling[v]));
+                        }
+                    }
+                    for (relv, v) in op.get_vars().iter().cloned().enumerate() {
+                        rolling[v] = op.get_outputs()[relv];
+                    }
+                }
+            }
+            if rolling != state0 {
+                return Some("propagated state does not return to the p = 0 state".into());
+            }
+            None
+        };
+        let mut calls = 0usize;
+        let mut max_n = 0usize;
+        let mut failures = vec![];
+        'outer: for sweep in 0..sweeps {
+            q.diagonal_update(beta);
+            calls += 1;
+            max_n = max_n.max(q.get_n());
+            if let Some(m) = check(&q) {
+                failures.push(format!("sweep {} (n = {}): after diagonal_update: {}", sweep, q.get_n(), m));
+                break 'outer;
+            }
+            for k in 0..loops_per_sweep {
+                q.loop_update();
+                calls += 1;
+                if let Some(m) = check(&q) {
+                    failures.push(format!("sweep {} (n = {}): after loop_update #{}: {}", sweep, q.get_n(), k, m));
+                    break 'outer;
+                }
+            }
+        }
+        (calls, max_n, failures)
+    }));
+    match r {
+        Ok((calls, max_n, failures)) => {
+            out.calls = calls;
+            out.max_n = max_n;
+            out.failures = failures;
+        }
+        Err(_) => out.failures.push("a public update call panicked in the long-loop scenario".into()),
+    }
+    out
 }
